@@ -184,10 +184,11 @@ def describe(v):
 
 
 class State:
-    __slots__ = ("det", "ref")
+    __slots__ = ("det", "ref", "rsw")
 
-    def __init__(self, det, ref):
+    def __init__(self, det, ref, rsw=False):
         self.det, self.ref = det, ref
+        self.rsw = rsw      # "read since the last write": abstraction of possible hidden cache state, part of canon
 
 
 class Model:
@@ -274,7 +275,9 @@ class Model:
         return self._ops
 
     def canon(self, st):
-        return canon_value(self.cont(st)._array)
+        # stored bytes + one bit of history (was the container read since it was last modified?), so that a state
+        # reached through a read is expanded separately: read-triggered caching would otherwise be merged away
+        return (canon_value(self.cont(st)._array), st.rsw)
 
     def value_of(self, name):
         return make_da(name) if (name.startswith("da_") or name == "nd_3d") else make_array(name)
@@ -404,6 +407,7 @@ class Model:
                     if got.shape != exp.shape or not np.allclose(got, exp, rtol=2e-3, atol=1e-6, equal_nan=True):
                         bad("iadd-value", f"{describe(ref_before)} += {describe(val)} gave {describe(c._array)}")
         new.ref = copy.deepcopy(c._array)
+        new.rsw = name in ("read", "eq")
         return new, viols
 
     def _valid_for(self, name, op, val):
